@@ -168,7 +168,7 @@ func (p *PBKVS) Alive(i int) bool {
 	if a.Done() {
 		return false
 	}
-	return a.PC != "AReplica.failLabel"
+	return a.PC != "AReplica.failLabel" && a.PC != "AReplica.Done"
 }
 
 func (p *PBKVS) TLCSystem(repo string) tlc.System {
